@@ -178,6 +178,8 @@ func rewrite(path, dst string) (int, error) {
 			if id, ok := sel.X.(*ast.Ident); ok && id.Obj == nil {
 				if timeName != "" && id.Name == timeName && sel.Sel.Name == "Now" && len(e.Args) == 0 {
 					id.Name = "vhook_"
+				} else if timeName != "" && id.Name == timeName && (sel.Sel.Name == "Since" || sel.Sel.Name == "Until") && len(e.Args) == 1 {
+					id.Name = "vhook_" // time.Since / time.Until read the clock too
 				} else if id.Name == timeName && timeName != "" {
 					usedTime = true
 				}
